@@ -76,6 +76,14 @@ def shrink(conv, v, fails):
     return best
 
 
+SIGNIFICANT = ["1979-05-27", "07:32:00", "1979-05-27T07:32:00Z", "1979-05-27 07:32:00z", "2020-01-01T00:00:00.5+01:00",
+               "1979-05-27T07:32:00", "12:30", "190:20:30", "true", "false", "True", "TRUE", "null", "Null", "~", "yes", "no", "on", "off",
+               "y", "n", "1", "-1", "+1", "1.5", "1e3", "1E-3", "0x1F", "0o17", "017", "0b11", "1_000", ".inf", "-.inf", ".nan", ".NaN",
+               "inf", "-inf", "nan", "", " ", " lead", "trail ", "- a", "-", "a: b", "a:", ": a", "#c", "a #c", "'q'", '"dq"', "---", "...",
+               "|", ">", "|-", "[1]", "{a}", "[", "]", "{", "}", ",", "!!str x", "!x", "&a", "*a", "@x", "`x", "%x", "?", "? a", "<<", "=",
+               "a\nb", "a\tb", "\\", "a\\nb", "\u00e9", "é", "\x7f"]
+
+
 def run(tier, seed):
     ck = C.Check(PID, tier, seed, "proof")
     cov = ck.coverage
@@ -97,6 +105,14 @@ def run(tier, seed):
         d = ck.rng.choice([0, 1, 2, 3, 4, 5])
         v = g.value(d) if ck.rng.random() < 0.6 else g.tuple(max(d, 1))
         vals.append(v)
+    # strings that a format would read as something else if written bare (dates, numbers, booleans, nulls, indicators): as a
+    # field value, a list element, nested, and as a field name
+    for sp in SIGNIFICANT:
+        sv = ("s", sp)
+        vals.append(("t", [("k", sv)]))
+        vals.append(("t", [("l", ("l", [sv, ("s", "x")])), ("n", ("t", [("in", sv)]))]))
+        if sp:
+            vals.append(("t", [(sp, ("i", 1))]))
     stats = {"depth": {}, "with_float": 0, "with_null": 0, "with_constraint": 0, "nonfinite": 0, "tuple_root": 0}
     for v in vals:
         stats["depth"][str(V.depth(v))] = stats["depth"].get(str(V.depth(v)), 0) + 1
